@@ -410,19 +410,19 @@ Proof. intros. repeat split; vm_compute; reflexivity. Qed.
 (* ================================================================== MACHINE INTEGERS
    (appended; Model/Limit64.v delete_limit64 = DeletePlan.execute over LimitPlan.Batch with the
    Go ints as int64 with wrap-around, Proofs/Limit64Proofs.v).  DELETE ... LIMIT s, n for every
-   0 <= s, n < 2^63, every PlanBatchSize and every scan output [bs] (non-empty batches, fewer than
+   int64 s, n (negative values, which the parser cannot produce, act as 0), every PlanBatchSize and every scan output [bs] (non-empty batches, fewer than
    2^63 pairs): the batches handed to BatchDelete are non-empty, their concatenation is exactly
    rows s .. s+n-1 of the scan's output, and the number DeletePlan reports (count += nrows) is
    their number -- no wrap-around anywhere. *)
 From KV Require Import Base.Num Model.Limit64 Proofs.Limit64Proofs Proofs.LimitProofs.
 
 Theorem delete_limit_machine_keys : forall (A : Type) (B s n : Z) (bs : list (list A)),
-  (0 <= s < 2 ^ 63)%Z -> (0 <= n < 2 ^ 63)%Z -> (Z.of_nat (tot bs) < 2 ^ 63)%Z ->
+  (s < 2 ^ 63)%Z -> (n < 2 ^ 63)%Z -> (Z.of_nat (tot bs) < 2 ^ 63)%Z ->
   Forall nonempty bs ->
   exists outs, delete_limit64 B s n bs = Some (outs, Z.of_nat (tot outs)) /\
                List.concat outs = firstn (Z.to_nat n) (skipn (Z.to_nat s) (List.concat bs)) /\
                Forall nonempty outs.
-Proof. exact delete_limit_machine. Qed.
+Proof. exact delete_limit_machine_all. Qed.
 Print Assumptions delete_limit_machine_keys.
 
 Example delete_limit_machine_extremes :
